@@ -1192,7 +1192,7 @@ def gen_watchdog_fn() -> str:
     C = A.ControllerApplication
     node = _fn_ast_async(C.__dict__["_watchdog_feed"])
     where = "ControllerApplication._watchdog_feed (source)"
-    body = [s for s in node.body if not (isinstance(s, ast.Expr) and isinstance(s.value, ast.Constant))]
+    body = [s for s in _StripLogs()._clean(node.body) if not isinstance(s, ast.Pass)]      # docstring and log calls carry no behaviour
     if len(body) != 1 or not isinstance(body[0], ast.Try) or body[0].finalbody or len(body[0].handlers) != 1:
         raise GenError(where, "expected a single try/except/else")
     t = body[0]
